@@ -174,7 +174,11 @@ func (r *Run) Finish(verifDir string, known []Known) int {
 			"how_to_replay": fmt.Sprintf("cd /verif && ./check.sh %s %s   # re-analyses /repo and re-evaluates this obligation", r.Property, r.Tier),
 		}, "", " ")
 		os.WriteFile(path, b, 0o644)
-		fmt.Printf("%s: %s %s [%s] %s: %s\n", strings.ToUpper(o.Status), o.Pos, o.Rule, o.Construct, r.Rules[o.Rule], o.Detail)
+		pos := o.Pos
+		if pos == "" {
+			pos = "-"
+		}
+		fmt.Printf("%s: %s %s [%s] %s: %s\n", strings.ToUpper(o.Status), pos, o.Rule, o.Construct, r.Rules[o.Rule], o.Detail)
 		fmt.Printf("VIOLATION property=%s replay=%s\n", r.Property, path)
 	}
 	for _, b := range r.Broken {
